@@ -10,6 +10,7 @@ mod engine_jbytes;
 mod engine_opts;
 mod engine_ssi;
 mod engine_trace;
+mod engine_trace_mt;
 mod lin;
 mod engine_views;
 mod exec;
@@ -121,6 +122,8 @@ fn main() {
         "miri-db" => engine_miri::db_main(&args),
         "director" => engine_director::main(&args),
         "director-replay" => engine_director::replay_main(&args),
+        "trace-mt" => engine_trace_mt::main(&args),
+        "trace-mt-child" => engine_trace_mt::child_main(&args),
         "trace" => engine_trace::main(&args),
         "trace-child" => engine_trace::child_main(&args),
         "trace-replay" => engine_trace::replay_main(&args),
